@@ -9,6 +9,7 @@ import (
 	"io"
 	"math/rand"
 	"regexp"
+	"sort"
 
 	"github.com/rkosegi/yaml-toolkit/common"
 	"github.com/rkosegi/yaml-toolkit/dom"
@@ -126,6 +127,14 @@ func c01Run(c *Ctx) {
 			}
 		}
 	}
+	// mappings with non-string keys (ints, bools, floats) at random levels
+	for i := 0; i < c.N(150); i++ {
+		c.Tick()
+		b, err := yaml.Marshal(c01AnyKeys(r, wirePlain(gt.Doc(r)), 0))
+		if err == nil {
+			c.Do("text", c01Text{"yaml", base64.StdEncoding.EncodeToString(b), "non-string-keys"})
+		}
+	}
 	for i := 0; i < c.N(150); i++ {
 		c.Tick()
 		n := r.Intn(24)
@@ -146,6 +155,38 @@ func c01Run(c *Ctx) {
 		c.Tick()
 		c.Do("fault", c01Ser{gs.Doc(r), pick(r, []string{"yaml", "json"})})
 	}
+}
+
+// c01AnyKeys rewrites some string-keyed maps below the root into maps keyed by ints, bools and
+// floats (distinct within each map).
+func c01AnyKeys(r *rand.Rand, v any, depth int) any {
+	switch x := v.(type) {
+	case map[string]any:
+		if depth > 0 && r.Intn(2) == 0 {
+			m := map[any]any{}
+			alt := []any{1, 2, true, 2.5, -7, false, 10}
+			for i, k := range sortedKeys(x) {
+				if i < len(alt) {
+					m[alt[i]] = c01AnyKeys(r, x[k], depth+1)
+				} else {
+					m[k] = c01AnyKeys(r, x[k], depth+1)
+				}
+			}
+			return m
+		}
+		m := map[string]any{}
+		for _, k := range sortedKeys(x) {
+			m[k] = c01AnyKeys(r, x[k], depth+1)
+		}
+		return m
+	case []any:
+		l := make([]any, len(x))
+		for i, e := range x {
+			l[i] = c01AnyKeys(r, e, depth+1)
+		}
+		return l
+	}
+	return v
 }
 
 func c01Mangle(r *rand.Rand, b []byte) []byte {
@@ -194,6 +235,53 @@ func wireIdxKeys(w W) (has bool, collide bool) {
 		}
 	}
 	return
+}
+
+// plainIWire renders a decoded value with arbitrary map keys as {"im": [[key scalar, value], …]}
+// (entries sorted by key text); collide: two keys of one map have the same fmt.Sprint text, or a key
+// ends in an index group (the D26 class) — then the result depends on map order / is a known finding.
+func plainIWire(v any) (W, bool) {
+	collide := false
+	var conv func(v any) W
+	entries := func(keys []any, get func(any) any) W {
+		seen := map[string]bool{}
+		sort.Slice(keys, func(i, j int) bool { return fmt.Sprint(keys[i]) < fmt.Sprint(keys[j]) })
+		es := []any{}
+		for _, k := range keys {
+			t := fmt.Sprint(k)
+			if seen[t] || idxSuffixRe.MatchString(t) {
+				collide = true
+			}
+			seen[t] = true
+			es = append(es, []any{scalarWire(k), conv(get(k))})
+		}
+		return map[string]any{"im": es}
+	}
+	conv = func(v any) W {
+		switch x := v.(type) {
+		case map[string]any:
+			keys := []any{}
+			for k := range x {
+				keys = append(keys, k)
+			}
+			return entries(keys, func(k any) any { return x[k.(string)] })
+		case map[any]any:
+			keys := []any{}
+			for k := range x {
+				keys = append(keys, k)
+			}
+			return entries(keys, func(k any) any { return x[k] })
+		case []any:
+			l := make([]any, len(x))
+			for i, e := range x {
+				l[i] = conv(e)
+			}
+			return l
+		default:
+			return scalarWire(v)
+		}
+	}
+	return conv(v), collide
 }
 
 func c01Finding(has bool) string {
@@ -322,6 +410,10 @@ func c01Eval(c *Ctx, kind string, raw []byte) {
 			got := plainWire(cb.AsMap())
 			c.Direct("text:no-lost-scalar(non-string keys)", wireScalars(got) == wireScalars(ctlW),
 				map[string]any{"asmap": got, "control": ctlW})
+			if iw, collide := plainIWire(ctl); !collide {
+				m := c.Model("decodei", map[string]any{"v": iw})
+				c.Corr("decodei", map[string]any{"dom": nodeWire(cb), "scalars": wireScalars(nodeWire(cb)), "keysOk": true, "inScalars": wireScalars(ctlW)}, m)
+			}
 			return
 		}
 		c01CheckDom(c, "text", ctlW, cb)
